@@ -54,7 +54,7 @@ def _namespaces():
 
 def attach(owner: Any, name: str, *, post: Optional[Callable] = None, pre: Optional[Callable] = None,
            snapshot: Optional[Callable] = None, on_error: Optional[Callable] = None, label: Optional[str] = None,
-           consume: bool = False) -> str:
+           consume: bool = False, around: Optional[Callable] = None) -> str:
     """Wrap owner.name; returns the label under which calls are counted."""
     raw = owner.__dict__[name] if hasattr(owner, "__dict__") and name in owner.__dict__ else getattr(owner, name)
     kind = "plain"
@@ -89,11 +89,18 @@ def attach(owner: Any, name: str, *, post: Optional[Callable] = None, pre: Optio
             _tls.depth -= 1
         result, exc = None, None
         try:
-            result = fn(*args, **kwargs)
+            if around is not None and judged:
+                with around() as ctx:
+                    result = fn(*args, **kwargs)
+                snap = (snap, ctx)
+            else:
+                result = fn(*args, **kwargs)
             if consume and isinstance(result, types.GeneratorType):
                 result = list(result)
         except Exception as e:
             exc = e
+            if around is not None and judged:
+                snap = (snap, None)
         if judged and post is not None:
             _tls.depth = getattr(_tls, "depth", 0) + 1
             _tls.call = (owner, name, args, kwargs)
